@@ -53,12 +53,13 @@ DEPENDS = {
     'C05': ['C04.ladder', 'C04.lex'],
     'C06': ['C04.ladder', 'C04.lex', 'C05.*', 'C12.iterstack*', 'C12.asindices*'],
     'C07': ['C12.asindices*'],
-    'C08': ['C04.ladder', 'C04.lex', 'C05.*'],
-    'C09': ['C04.ladder', 'C04.lex', 'C05.*'],
-    'C10': ['C04.ladder', 'C04.lex', 'C05.*'],
+    'C08': ['C04.ladder', 'C04.lex', 'C05.*', 'C11.wiring.complement', 'C11.wiring.intersection', 'C11.wiring.diff'],
+    'C09': ['C04.ladder', 'C04.lex', 'C05.*', 'C11.wiring.aggregate', 'C11.wiring.rowreduce', 'C11.wiring.fold', 'C11.wiring.groupselect*',
+            'C11.wiring.mergeduplicates', 'C11.wiring.rowgroupmap'],
+    'C10': ['C04.ladder', 'C04.lex', 'C05.*', 'C11.wiring.duplicates', 'C11.wiring.unique', 'C11.wiring.distinct', 'C11.wiring.conflicts'],
     'C11': ['C04.ladder', 'C04.lex'],
     'C13': ['C04.ladder', 'C04.lex'],
-    'C14': ['C12.asindices*'],
+    'C14': ['C12.asindices*', 'C11.wiring.pivot'],
 }
 
 
